@@ -598,7 +598,7 @@ func (m *Machine) reportModel(kind, msg string, definite bool) {
 
 func (m *Machine) mkViolation(kind, msg string, vals map[int]uint64, definite bool) *Violation {
 	site, pos, stack := m.site()
-	v := &Violation{Harness: m.harness, Kind: kind, Msg: msg, Site: site, Pos: pos, Stack: stack, Definite: definite,
+	v := &Violation{Harness: m.harness, Kind: kind, Msg: msg, Site: site, Pos: pos, Stack: stack, Definite: definite, Preempts: m.preempts,
 		Prefix: append([]Choice{}, m.prefix[:min(m.depth, len(m.prefix))]...)}
 	if vals != nil {
 		v.Nd = m.ndVals(vals)
